@@ -42,9 +42,9 @@ theorem clear_inuse (sh : Shared) (id : Nat) (h : id / 64 < sh.words.length) (hb
   have e1 : tstep sh (.c8 id) = (sh, .c9 id (sh.words.getD (bucketOffset id) 0), none) := by
     simp only [tstep, h', ↓reduceIte, if_neg hne]
   have e2 : tstep sh (.c9 id (sh.words.getD (bucketOffset id) 0)) =
-      ({ sh with words := clrBit sh.words id }, .c11, none) := by
+      ({ sh with words := clrBit sh.words id }, .c11 id, none) := by
     simp only [tstep, ↓reduceIte]; rfl
-  have e3 : tstep { sh with words := clrBit sh.words id } .c11 =
+  have e3 : tstep { sh with words := clrBit sh.words id } (.c11 id) =
       ({ sh with words := clrBit sh.words id, inuse := sh.inuse - 1 }, .idle,
         some (if sh.inuse - 1 < 0 then .crashNegative else .cleared true)) := by
     simp only [tstep]
